@@ -153,6 +153,39 @@ Theorem C15_close_then_drain : forall h sid c n,
 Proof. exact close_then_drain. Qed.
 Print Assumptions C15_close_then_drain.
 
+(* The peer's close request is always answered: for every state of a registered
+   stream — after every history, including one in which a data packet of the
+   local writer was refused and its error is still pending in the buffered
+   writer — the request is acknowledged, the stream is deregistered and what
+   was buffered for the reader is untouched. *)
+Theorem C15_peer_close_always_answered : forall h sid c,
+  lookup h sid = Some c ->
+  h_step h (ECloseRemote sid) = (update h sid set_rclosed, OReply RAck) /\
+  lookup (update h sid set_rclosed) sid = None /\
+  buf_of (update h sid set_rclosed) sid = rc_buf c /\
+  find_conn (update h sid set_rclosed) sid = Some (set_rclosed c).
+Proof. exact peer_close_always_answered. Qed.
+Print Assumptions C15_peer_close_always_answered.
+
+Theorem C15_peer_close_answered_after_any_history : forall es h os sid c,
+  h_run [] es = (h, os) -> lookup h sid = Some c ->
+  snd (h_step h (ECloseRemote sid)) = OReply RAck.
+Proof. exact peer_close_answered_after_any_history. Qed.
+Print Assumptions C15_peer_close_answered_after_any_history.
+
+(* A refused data packet is the local writer's business: that Write/Flush
+   fails, every later one fails too and sends nothing, the read side and the
+   registration are unchanged. *)
+Theorem C15_refused_write_sticks : forall h sid c,
+  find_conn h sid = Some c -> rc_rclosed c = false -> rc_werr c = false ->
+  let h1 := update h sid set_werr in
+  h_step h (EWrite sid false) = (h1, OWrite false) /\
+  (forall acc, h_step h1 (EWrite sid acc) = (h1, OWrite false)) /\
+  (forall s, buf_of h1 s = buf_of h s) /\
+  (lookup h sid = Some c -> lookup h1 sid = Some (set_werr c)).
+Proof. exact refused_write_sticks. Qed.
+Print Assumptions C15_refused_write_sticks.
+
 (* ---------------------------------------------------------------------- *)
 (* reader / serve loop / close: every schedule                              *)
 (* ---------------------------------------------------------------------- *)
@@ -247,3 +280,11 @@ Theorem C15_pinned_eof_before_close_refuted :
                hd_error (l_log s) = Some (BReturned [] true) /\ l_closed s = false.
 Proof. exact pinned_eof_before_close. Qed.
 Print Assumptions C15_pinned_eof_before_close_refuted.
+
+(* main before fix "a peer's close request is answered whatever the writer's
+   state": the stale error of the buffered writer escaped from the close
+   handler, Serve ended and the request stayed unanswered *)
+Theorem C15_stale_close_unanswered_refuted :
+  exists c, rc_werr c = true /\ rc_rclosed c = false /\ close_remote_reply_stale c = None.
+Proof. exact stale_write_error_left_close_unanswered. Qed.
+Print Assumptions C15_stale_close_unanswered_refuted.
